@@ -252,6 +252,13 @@ def _normalise_syntax(tree):
     neg = {ast.Is: ast.IsNot, ast.IsNot: ast.Is, ast.In: ast.NotIn, ast.NotIn: ast.In, ast.Eq: ast.NotEq, ast.NotEq: ast.Eq}
 
     class N(ast.NodeTransformer):
+        def visit_IfExp(self, n):
+            self.generic_visit(n)
+            # `x if x else d`  ->  `x or d`
+            if ast.dump(n.test) == ast.dump(n.body):
+                return ast.copy_location(ast.BoolOp(op=ast.Or(), values=[n.test, n.orelse]), n)
+            return n
+
         def visit_UnaryOp(self, n):
             self.generic_visit(n)
             if isinstance(n.op, ast.Not) and isinstance(n.operand, ast.Compare) and len(n.operand.ops) == 1 and type(n.operand.ops[0]) in neg:
